@@ -109,3 +109,81 @@ def table_calls(ctx, body, blocks=None):
             continue
         out.append(s)
     return out
+
+
+# ------------------------------------------------------------------------------------------------
+# routing-table admission (shared by C08 and C12)
+
+ADMIT_FNS = ('table::RoutingTable::add_node', 'table::RoutingTable::add_nodes', 'table::RoutingTable::bucket_node',
+             'bucket::Bucket::add_node')
+
+
+def rule_admission_filter(ctx, res):
+    """RoutingTable::add_node: placement is reached only for non-router, non-bad, non-own-id nodes"""
+    from .lib import Sym, literal, is_param, root_of, strip_transparent, agg_variant, term_int, field_chain, fmt
+    fn = 'table::RoutingTable::add_node'
+    b = ctx.body(fn)
+    res.touch(b)
+    s = Sym(b)
+    s.run()
+    res.paths += len(s.paths)
+    max_buckets = ctx.f.const_value('table::MAX_BUCKETS')
+    placing = 0
+    ok = True
+    why = []
+    for p in s.paths:
+        places = [e for e in p.effects if e[0] == 'call' and e[1] in ('table::RoutingTable::bucket_node', 'bucket::Bucket::add_node')]
+        if not places:
+            continue
+        placing += 1
+        router = bad = own = None
+        for c in p.conds:
+            rel, a, b2, truth = literal(c)
+            if rel == 'bool' and a[0] == 'call' and a[1].endswith('::contains') and field_chain(strip_transparent(a[2][0])) == ['routers'] \
+                    and lib.find_calls(a[2][1], 'Node::addr') and is_param(root_of(strip_transparent(lib.find_calls(a[2][1], 'Node::addr')[0][2][0])), 'node'):
+                router = truth
+            if rel == 'eq':
+                for x, y in ((a, b2), (b2, a)):
+                    if isinstance(x, tuple) and x[0] == 'call' and x[1] == 'node::Node::status' and agg_variant(y) == 'Bad':
+                        bad = truth
+                    if isinstance(x, tuple) and x[0] == 'call' and x[1] == 'table::leading_bit_count' and term_int(y) == max_buckets:
+                        own = truth
+        if router is not False:
+            ok = False
+            why.append('placement reachable without routers.contains(node.addr()) == false')
+        if bad is not False:
+            ok = False
+            why.append('placement reachable without status != Bad')
+        if own is not False:
+            ok = False
+            why.append('placement reachable without shared-prefix != %s (own id)' % max_buckets)
+        # the node placed is the offered node, unchanged
+        for e in places:
+            n = strip_transparent(e[2][1])
+            if not is_param(n, 'node'):
+                ok = False
+                why.append('placed node is not the offered node: %s' % fmt(n))
+    res.check(ok and placing >= 1, 'DOM', fn, 'placement is reached only behind: address not a router, status != Bad, id != own id (shared prefix != 160)',
+              site=b.span, detail='; '.join(sorted(set(why))))
+    res.check(max_buckets == 160, 'CONST', 'table::MAX_BUCKETS', 'MAX_BUCKETS == 160 (bits of an id)', detail=str(max_buckets))
+
+
+def rule_who_admits(ctx, res, floors=True):
+    """the only entries into the table's node storage"""
+    from .lib import Lost
+    sites = {f: ctx.calls_to(f) for f in ADMIT_FNS}
+    callers = {f: sorted({s.body.path for s in v}) for f, v in sites.items()}
+    for f, v in sites.items():
+        res.sites += len(v)
+    exp = {
+        'table::RoutingTable::add_node': {'table::RoutingTable::add_nodes', 'table::RoutingTable::split_bucket'},
+        'table::RoutingTable::bucket_node': {'table::RoutingTable::add_node', 'table::RoutingTable::bucket_node'},
+        'bucket::Bucket::add_node': {'table::RoutingTable::bucket_node'},
+        'table::RoutingTable::add_nodes': {'handler::DhtHandler::handle_incoming_response::{closure#0}', 'action::bootstrap::TableBootstrapInner::handle_message'},
+    }
+    floor = {'table::RoutingTable::add_node': 3, 'table::RoutingTable::bucket_node': 2, 'bucket::Bucket::add_node': 1, 'table::RoutingTable::add_nodes': 3}
+    for f in ADMIT_FNS:
+        got = set(callers[f])
+        res.check(got <= exp[f] and len(sites[f]) >= floor[f], 'WHO', f, 'called only from %s (floor %d sites)' % (sorted(lib.short(x) for x in exp[f]), floor[f]),
+                  detail='callers: %s (%d sites)' % (sorted(got), len(sites[f])), key='callers')
+    return sites
